@@ -7,7 +7,7 @@ from . import C10, common
 
 META = {
     'design_ref': 'DESIGN.md §5 C05',
-    'technique': "shape-case abstract interpretation of set/remove on both paragraph implementations and of the final-newline helper; __setitem__ and set_field_to_simple_value interpreted on symbolic strings by cases (F / F\\n / F\\nR\\n / F\\nR') against the specified calls; set_field_from_raw_string unfolded into paths (helpers inlined): per-line acceptance as regular languages, validate-before-commit on every committing path; comment hand-over by object identity; line-primitive rule; capture agreement of the field-line regex with the Policy 5.1 field-name language; frame obligation on the final-newline helper chain (nothing but the missing line end changes), interpreted on lines with every part present",
+    'technique': "shape-case abstract interpretation of set/remove on both paragraph implementations and of the final-newline helper; __setitem__ and set_field_to_simple_value interpreted on symbolic strings by cases (F / F\\n / F\\nR\\n / F\\nR') against the specified calls; set_field_from_raw_string unfolded into paths (helpers inlined): per-line acceptance as regular languages, validate-before-commit on every committing path; comment hand-over by object identity; line-primitive rule; capture agreement of the field-line regex with the Policy 5.1 field-name language; frame obligation on the final-newline helper chain (nothing but the missing line end changes), interpreted on lines with every part present; no store into the paragraph or its existing field is followed by a refusal (path rule)",
     'level_text': 'Static decision of the structural conditions for locality: a new field is placed last only after the last field was '
                   'terminated, the terminating newline goes to the last line of the last field and nowhere else, a replacement never moves '
                   'or touches other fields, deletion unlinks exactly the addressed occurrences, a value is routed to the single-line path '
@@ -117,6 +117,22 @@ def r1b_helper(rep, src):
     _ = m
 
 
+def lookup_helper_names(src):
+    """names of private methods of the paragraph classes whose every return hands back a `self.get_kvpair_element(...)` lookup -- the
+    plain one in the base class, one that resolves an ambiguous key in the class that allows duplicates: a call of such a method is a
+    lookup of the field too"""
+    mod_ = src.mod(PM)
+    lookup_helpers = set()
+    for q_, g_ in mod_.funcs.items():
+        nm_ = q_.split('.')[-1]
+        if '.' in q_ and nm_.startswith('_') and not nm_.startswith('__') and 'Paragraph' in q_.split('.')[0]:
+            rets_ = [r_ for r_ in ast.walk(g_.node) if isinstance(r_, ast.Return)]
+            if rets_ and all(r_.value is not None and isinstance(r_.value, ast.Call) and isinstance(r_.value.func, ast.Attribute)
+                             and r_.value.func.attr == 'get_kvpair_element' and norm(r_.value.func.value) == 'self' for r_ in rets_):
+                lookup_helpers.add(nm_)
+    return lookup_helpers
+
+
 def r3_keys(rep, src):
     m = src.mod(PM)
     n = 0
@@ -213,20 +229,7 @@ def r3_keys(rep, src):
     bad = None
     n_join = 0
 
-    # (a private method of the paragraph classes whose every return hands back such a lookup -- the plain one in the base class, one
-    # that resolves an ambiguous key in the class that allows duplicates -- is a lookup too)
-    mod_ = src.mod(PM)
-    lookup_helpers = set()
-    for q_, g_ in mod_.funcs.items():
-        nm_ = q_.split('.')[-1]
-        if '.' in q_ and nm_.startswith('_') and not nm_.startswith('__') and 'Paragraph' in q_.split('.')[0]:
-            rets_ = [r_ for r_ in ast.walk(g_.node) if isinstance(r_, ast.Return)]
-            if rets_ and all(r_.value is not None and isinstance(r_.value, ast.Call) and isinstance(r_.value.func, ast.Attribute)
-                             and r_.value.func.attr == 'get_kvpair_element' and norm(r_.value.func.value) == 'self' for r_ in rets_):
-                lookup_helpers.add(nm_)
-    for nm_ in list(lookup_helpers):
-        if not all(any(isinstance(r_, ast.Return) for r_ in ast.walk(g_.node)) for q_, g_ in mod_.funcs.items() if q_.endswith('.' + nm_)):
-            lookup_helpers.discard(nm_)
+    lookup_helpers = lookup_helper_names(src)
 
     def is_lookup(e):
         return isinstance(e, ast.Call) and isinstance(e.func, ast.Attribute) and (e.func.attr == 'get_kvpair_element' or e.func.attr in lookup_helpers) and norm(e.func.value) == 'self'
